@@ -158,6 +158,23 @@ def real_replay(unit, values, extra_env=None, timeout=120):
             pass
 
 
+def seed_search(u, K, suffix, record):
+    """The verifier refuted an obligation through an over-approximating model (e.g. the abstract calendar) and its own
+    counter-model does not replay.  Look for a real failing input among the contract's boundary seeds."""
+    seeds = K.seeds()
+    items = [(u, v, K.replay_env(v) if hasattr(K, 'replay_env') else None) for v in seeds]
+    for v, rp in zip(seeds, real_replay_batch(items)):
+        failed = rp.get('failed') or []
+        if suffix in failed or (suffix.startswith('raises-only') and any(f.startswith('raises-only') for f in failed)):
+            record['verifier_counter_model'] = record['values']
+            record['values'] = v
+            record['replay_env'] = K.replay_env(v) if hasattr(K, 'replay_env') else None
+            record['real_run'] = rp
+            record['verdict'] = 'violation: obligation refuted by the verifier; failing real input found among the contract seeds (%d tried)' % len(seeds)
+            return True
+    return False
+
+
 def load_prop(pid):
     sys.path.insert(0, VERIF)
     return importlib.import_module('props.%s' % pid)
@@ -203,8 +220,8 @@ def check_property(pid, tier, seed=0, replay_only=None):
             problems.append((2, 'unit %s incomplete: %s' % (r['unit'], r['incomplete'])))
         if not r['vcs']:
             problems.append((3, 'unit %s generated zero obligations (vacuous)' % r['unit']))
-        K = u.kcls
-        need_cover = getattr(K, 'covers', ('return',))
+        K = u.make()
+        need_cover = K.expected_covers() if hasattr(K, 'expected_covers') else getattr(K, 'covers', ('return',))
         for cv in need_cover:
             if not r['covers'].get(cv):
                 problems.append((3, 'unit %s: no feasible path reaches %s (vacuous precondition?)' % (r['unit'], cv)))
@@ -316,6 +333,11 @@ def check_property(pid, tier, seed=0, replay_only=None):
             with open(rpath, 'w') as f:
                 json.dump(record, f, indent=1)
             problems.append((3, 'replay harness failed for %s: %s' % (vc['oid'], json.dumps(rp)[:400])))
+        elif (not replayable or not rp.get('pre_ok', True)) and hasattr(K, 'seeds') and seed_search(u, K, suffix, record):
+            with open(rpath, 'w') as f:
+                json.dump(record, f, indent=1)
+            lines.append('VIOLATION property=%s replay=%s obligation=%s' % (pid, rpath, vc['oid']))
+            n_viol += 1
         elif replayable and rp.get('pre_ok', True) and not suffix.startswith('loop-') and not suffix.startswith('decreases'):
             record['verdict'] = 'counter-model does not replay: encoding/contract error (not a violation)'
             with open(rpath, 'w') as f:
